@@ -84,7 +84,7 @@ class C06(Cfg):
         return engine.run(self, tier, seed)
 
     def streams(self, tier, seed, work, dv):
-        n, m = (40000, 1500) if tier == "quick" else (600000, 20000)
+        n, m = (25000, 1000) if tier == "quick" else (500000, 15000)
         p = os.path.join(work, "pairs.ops")
         lib.sh([dv, "gen", "--seed", str(seed), "--n", str(n), "--out", p], check=True)
         q = os.path.join(work, "requests.ops")
